@@ -691,7 +691,7 @@ class Report:
         cov["trusted_base"] = list(trusted_base or [])
         # properties whose obligations include source-text ties name the translators
         if any(t.startswith("%s_gen_" % self.prop_id) for t in cov.get("theorems", [])):
-            for extra in (TRUSTED_BASE_TRANSLATOR, TRUSTED_BASE_TRANSLATOR_MEASURES):
+            for extra in (TRUSTED_BASE_TRANSLATOR, TRUSTED_BASE_TRANSLATOR_MEASURES, TRUSTED_BASE_TRANSLATOR_SUBTOTALS):
                 if extra not in cov["trusted_base"]:
                     cov["trusted_base"].append(extra)
         if extra_cov:
@@ -884,8 +884,22 @@ TRUSTED_BASE_TRANSLATOR_MEASURES = (
     "matrix/measure.py, stripe/measure.py and cubepart.py by the whitelist translator harness/translate/measures.py "
     "and Base/MeasureExp.v's reading of numpy (cell-wise arithmetic, nansum, broadcasting restricted to axes equal by "
     "construction, np.sqrt through signed squares); the subtotal strategies (matrix/subtotals.py, stripe/insertion.py) "
-    "are not read - their meaning is the model's (Model/Subtotals.v, Proportions.v, Variance.v) and is tied by the "
-    "correspondence only; members the translator cannot read are None and tied by the correspondence only")
+    "are not read BY THIS translator - a call is recorded with its operands and means the model's definitions "
+    "(Model/Subtotals.v, Proportions.v, Variance.v), which the third translator (next entry) ties to the strategies' own "
+    "source; members the translator cannot read are None and tied by the correspondence only")
+
+TRUSTED_BASE_TRANSLATOR_SUBTOTALS = (
+    "the subtotal strategies named by the C04_gen_* (and C03_gen_WaveDiff* / C11_gen_*TermSubtotals) theorems are tied to the "
+    "source text of matrix/subtotals.py and stripe/insertion.py by the whitelist translator harness/translate/subtotals.py "
+    "and Base/SubtotalExp.v's reading of numpy / Python (fancy indexing e[idxs] / e[idxs, :] / e[:, idxs] as views - defined "
+    "only for in-range offsets -, np.sum over an axis, cell-wise + - * / on equal shapes or with a scalar (no length-1 "
+    "broadcasting), np.full, np.empty of an empty shape, np.array / np.hstack / np.vstack / reshape of comprehensions over "
+    "the subtotals (hstack / vstack of an empty list raise), zip of equal lengths, `len(x) > k`, and / or / not, "
+    "`if c: return a`); what a constructor parameter IS is decided by its name (base_values, counts, default_insertions / "
+    "default_values arrays - 2-D in the matrix module, 1-D in the stripe module -, dimensions / rows_dimension, "
+    "diff_cols_nan / diff_rows_nan booleans) and of a _Subtotal only addend_idxs / subtrahend_idxs are read (how those are "
+    "computed from the insertion dict is Model/SubtotalIds.v, tied by C04's correspondence); exact rationals, so float "
+    "summation order is not modelled")
 
 
 def g_subtotal(s):
